@@ -262,15 +262,12 @@ func encodeFloat(x float64) []byte {
 
 	const numDigits = 9
 
-	l := int(math.Floor(math.Log10(x))) + 1
-	i := int(math.Round(x / math.Pow10(l-numDigits)))
-	if i < 100_000_000 {
-		l--
-		i *= 10
-	} else if i > 999_999_999 {
-		l++
-		i /= 10
-	}
+	// The correctly rounded decimal representation d.dddddddde±xx.  (Scaling
+	// x by a power of ten does not work for subnormal numbers.)
+	s := strconv.FormatFloat(x, 'e', numDigits-1, 64)
+	i, _ := strconv.Atoi(s[:1] + s[2:numDigits+1])
+	e, _ := strconv.Atoi(s[numDigits+2:])
+	l := e + 1
 	// now i contains all the digits
 
 	// remove trailing zeros
